@@ -31,8 +31,10 @@ def solution(rng, n, name="SOLUTION"):
     return L
 
 
-def selected_output(rng, n, elems=("Na", "Cl", "Ca", "K")):
+def selected_output(rng, n, elems=("Na", "Cl", "Ca", "K"), with_file=False):
     L = ["SELECTED_OUTPUT %d" % n]
+    if with_file and rng.random() < 0.3:
+        L.append(" -file selfile_%d.sel" % n)
     if rng.random() < 0.3:
         L.append(" -reset false")
     if rng.random() < 0.4:
@@ -124,7 +126,7 @@ def rich_step(rng, have):
     return ["USE solution %d" % n, "EXCHANGE 1", " X 0.01", " -equilibrate %d" % n], set()
 
 
-def multi_sim_input(rng, nsims=None, user_numbers=None, allow_redefine=True, no_simno=False, rich=False):
+def multi_sim_input(rng, nsims=None, user_numbers=None, allow_redefine=True, no_simno=False, rich=False, with_file=False):
     """An error-free multi-simulation input with SELECTED_OUTPUT/USER_PUNCH blocks. Returns (text, info)."""
     nsims = nsims or rng.randint(1, 4)
     uns = user_numbers if user_numbers is not None else sorted(rng.sample([1, 2, 3, 5, 22, 100], rng.randint(0, 3)))
@@ -139,7 +141,7 @@ def multi_sim_input(rng, nsims=None, user_numbers=None, allow_redefine=True, no_
             sols.append(n)
         if s == 0:
             for n in uns:
-                L += selected_output(rng, n)
+                L += selected_output(rng, n, with_file=with_file)
                 if rng.random() < 0.7:
                     up, nh, nv = user_punch(rng, n, no_simno)
                     L += up
